@@ -683,6 +683,37 @@ theorem C08_json_bad_id_rejected (S : Schema) (T : Txt) (D : List Val) (m : Nat)
   simp [slotRead, hty, halt, hcard, C08_json_id_wrong_length S T n b h0 hl]
 
 
+/-! ## unknown members: skipped, but not unread (`iter.Skip()` of jsoniter's strict build validates numbers) -/
+
+/-- **An unknown member is skipped exactly when `iter.Skip()` accepts its value**: for a key no `case` of the reader names, the
+member contributes nothing to the result and the rest of the object is read — unless the value (at any depth) holds a number
+literal that the fast scanner hands to `ReadFloat64` and that `strconv.ParseFloat` rejects (an exponent literal beyond the
+float64 range, e.g. `1e400`), in which case the WHOLE document is an error, not a panic and not a partial result. -/
+theorem C08_json_unknown_member (S : Schema) (T : Txt) (D : List Val) (m : Nat) (acc : Val) (k : List Nat) (v tl : Json)
+    (hkey : (jsonKeysOf S m).any (fun s => str s == k) = false) :
+    fromJ S T D m acc (.ocons k v tl) = if skipOk T v then fromJ S T D m acc tl else none := by
+  rw [fromJ]
+  simp only [jsonKeysOf] at hkey
+  simp only [hkey, Bool.not_false, if_true]
+
+/-- a number literal without an exponent mark (digits, sign, one dot) is never handed to the float reader: skipping it cannot
+fail, whatever its magnitude (`12345678901234567890123` in an unknown member is fine) -/
+theorem C08_json_skip_plain_number (T : Txt) (t : List Nat) (h : skipNeedsFloat t = false) : skipOk T (.num t) = true := by
+  simp [skipOk, h]
+
+/-- strings, `true` / `false` / `null`, empty containers always skip; containers skip iff every value inside does -/
+theorem C08_json_skip_structural (T : Txt) (b k : List Nat) (h v t : Json) :
+    skipOk T (.str b) = true ∧ skipOk T .null = true ∧ skipOk T .tt = true ∧ skipOk T .ff = true ∧
+    skipOk T .anil = true ∧ skipOk T .onil = true ∧
+    skipOk T (.acons h t) = (skipOk T h && skipOk T t) ∧ skipOk T (.ocons k v t) = (skipOk T v && skipOk T t) := by
+  simp [skipOk]
+
+/-- non-vacuity (tests, labelled as tests): `1e400` and `1E+2` go to the float reader, `5`, `-7`, `2.5` and a 23-digit integer do not;
+with a float reader that rejects everything, an unknown member `1e400` fails the object and `2.5` does not -/
+example : skipNeedsFloat (str "1e400") = true ∧ skipNeedsFloat (str "1E+2") = true ∧ skipNeedsFloat (str "5") = false ∧
+    skipNeedsFloat (str "-7") = false ∧ skipNeedsFloat (str "2.5") = false ∧
+    skipNeedsFloat (str "12345678901234567890123") = false := by decide
+
 /-! ## the size formula of the generated code -/
 
 /-- **`sovX(x) = (bits.Len64(x|1)+6)/7` is the varint byte count**, for every `x`: the `sov` summands of `C08_size` are the
